@@ -47,7 +47,31 @@ let table : (string * schema list) list = [
   "BootstrapWitnesses", [bootstrapWitnesses]; "TransactionWitnessSet", [transactionWitnessSet depth];
   "Transaction", [transaction depth]; "VRFCert", [vRFCert]; "OperationalCert", [operationalCert];
   "HeaderBody", [headerBody; headerBodyPraos]; "Header", [header; headerPraos];
-  "Block", [block depth]; "Int", [intS] ]
+  "Block", [block depth; blockPraos depth]; "Int", [intS];
+  (* stand-alone members of the variant types and further public types (ledger_schemas_more) *)
+  "StakeRegistration", [stakeRegistration]; "StakeDeregistration", [stakeDeregistration];
+  "StakeDelegation", [stakeDelegation]; "PoolParams", [poolParams]; "PoolRegistration", [poolRegistration];
+  "PoolRetirement", [poolRetirement]; "GenesisKeyDelegation", [genesisKeyDelegation];
+  "MoveInstantaneousRewardsCert", [moveInstantaneousRewardsCert]; "VoteDelegation", [voteDelegation];
+  "StakeAndVoteDelegation", [stakeAndVoteDelegation]; "StakeRegistrationAndDelegation", [stakeRegistrationAndDelegation];
+  "VoteRegistrationAndDelegation", [voteRegistrationAndDelegation];
+  "StakeVoteRegistrationAndDelegation", [stakeVoteRegistrationAndDelegation]; "CommitteeHotAuth", [committeeHotAuth];
+  "CommitteeColdResign", [committeeColdResign]; "DRepRegistration", [dRepRegistration]; "DRepDeregistration", [dRepDeregistration];
+  "DRepUpdate", [dRepUpdate]; "SingleHostAddr", [singleHostAddr]; "SingleHostName", [singleHostName]; "MultiHostName", [multiHostName];
+  "Ipv4", [ipv4]; "Ipv6", [ipv6]; "URL", [uRL]; "DNSRecordAorAAAA", [dNSName]; "DNSRecordSRV", [dNSName]; "Committee", [committee];
+  "ParameterChangeAction", [parameterChangeAction]; "HardForkInitiationAction", [hardForkInitiationAction];
+  "TreasuryWithdrawalsAction", [treasuryWithdrawalsAction]; "NoConfidenceAction", [noConfidenceAction];
+  "UpdateCommitteeAction", [updateCommitteeAction]; "NewConstitutionAction", [newConstitutionAction];
+  "MetadataList", [metadataList depth]; "MetadataMap", [metadataMap depth]; "PlutusMap", [plutusMap depth];
+  "ConstrPlutusData", [constrPlutusData depth]; "BigInt", [bigInt]; "Redeemer", [redeemer depth]; "RedeemerTag", [redeemerTag];
+  "Language", [language]; "CostModel", [costModel]; "NetworkId", [networkId]; "Vkey", [vkey]; "AssetName", [assetNameS];
+  "PlutusScript", [plutusScriptBytes]; "MIRToStakeCredentials", [mIRToStakeCredentials];
+  "ScriptPubkey", [scriptPubkey]; "ScriptAll", [scriptAll (nat_of_int 2)]; "ScriptAny", [scriptAny (nat_of_int 2)];
+  "ScriptNOfK", [scriptNOfK (nat_of_int 2)]; "TimelockStart", [timelockStart]; "TimelockExpiry", [timelockExpiry];
+  "AssetNames", [assetNames]; "GenesisHashes", [genesisHashes]; "ScriptHashes", [scriptHashes]; "RewardAddresses", [rewardAddresses];
+  "TransactionMetadatumLabels", [transactionMetadatumLabels]; "BigNum", [bigNum];
+  "TransactionBodies", [transactionBodies depth]; "TransactionWitnessSets", [transactionWitnessSets depth];
+  "TransactionUnspentOutput", [transactionUnspentOutput depth]; "VersionedBlock", [versionedBlock depth] ]
 
 (* ---------- PRNG (SplitMix64) ---------- *)
 let st = ref 0L
@@ -239,7 +263,8 @@ let rec has_non_ascii_text (v : val0) : bool = match v with
   | _ -> false
 (* the array form of a transaction output looks at the item FOLLOWING it (data hash or next output), so bytes after
    the value are part of the decision for the types that can end in such an output *)
-let peeks_behind (name : string) = List.mem name ["TransactionOutput"; "TransactionOutputs"; "TransactionBody"; "Transaction"; "Block"]
+let peeks_behind (name : string) = List.mem name ["TransactionOutput"; "TransactionOutputs"; "TransactionBody"; "Transaction"; "Block";
+  "TransactionBodies"; "TransactionUnspentOutput"; "VersionedBlock"]
 
 let predict_schema (name : string) (bs : n list) : string =
   match List.assoc_opt name table with
@@ -253,7 +278,8 @@ let predict_schema (name : string) (bs : n list) : string =
            if r <> [] && peeks_behind name then "any"
            else if wfv s v && refined writer_form s v && not (has_non_ascii_text v) then begin
              let re = enc s v in
-             if re = consumed bs r then "ok " ^ hex_of_bytes re else "accept"
+             (* a stand-alone PlutusMap is re-serialised grouped by key (the writer's order is not the wire order) *)
+             if re = consumed bs r && name <> "PlutusMap" then "ok " ^ hex_of_bytes re else "accept"
            end else go rest
          | Err -> go rest
          | Panic -> "panic"
